@@ -666,6 +666,54 @@ func ruleOptsForward(c *Ctx, r *Report, fs []*FuncInfo, floor int) {
 				fmt.Sprintf("%s receives options (%s) but calls %s without forwarding them: the callee runs with default behaviour", f.Name, vp.Name(), ShortName(g)))
 			return true
 		})
+		// helper boundary: a module function without an options parameter of type T that f reaches
+		// (through other such helpers) cannot forward f's options; if it calls a callee that takes
+		// options of type T, everything below that call runs with default behaviour.
+		takesT := func(fn *types.Func) bool {
+			s, ok := fn.Type().(*types.Signature)
+			if !ok || !s.Variadic() {
+				return false
+			}
+			return types.Identical(s.Params().At(s.Params().Len()-1).Type().(*types.Slice).Elem(), vt)
+		}
+		seen := map[*FuncInfo]bool{f: true}
+		var visit func(h *FuncInfo, via string, depth int)
+		visit = func(h *FuncInfo, via string, depth int) {
+			if depth > 4 {
+				return
+			}
+			hinfo := h.Info()
+			k := 0
+			ast.Inspect(h.Decl.Body, func(x ast.Node) bool {
+				call, ok := x.(*ast.CallExpr)
+				if !ok {
+					return true
+				}
+				g := Callee(hinfo, call)
+				if g == nil {
+					return true
+				}
+				if takesT(g) {
+					// a helper that passes options of its own choosing has decided the behaviour
+					// below it; only a call with no options at all is a silent reset.
+					noOpts := len(call.Args) == g.Type().(*types.Signature).Params().Len()-1
+					if h != f && noOpts && strings.HasPrefix(g.Pkg().Path(), modPath) {
+						k++
+						r.Bad(fmt.Sprintf("%s:via:%s:call#%d:%s", f.Name, h.Name, k, ShortName(g)), c.Pos(call.Pos()),
+							fmt.Sprintf("%s receives options (%s) and reaches %s (%s), which has no options parameter and calls %s: the callee runs with default behaviour whatever options %s was given", f.Name, vp.Name(), h.Name, via, ShortName(g), f.Name))
+					}
+					return true
+				}
+				gh := c.funcOfCallee(g)
+				if gh == nil || seen[gh] || gh.Decl.Body == nil || gh.Obj.Pkg() != f.Obj.Pkg() || gh.Obj.Exported() {
+					return true
+				}
+				seen[gh] = true
+				visit(gh, via+"→"+gh.Name, depth+1)
+				return true
+			})
+		}
+		visit(f, f.Name, 0)
 	}
 }
 
